@@ -197,9 +197,12 @@ def to_py(v, ctx):
         return v['v']
     if t == 'dt':
         tz = None
-        if v.get('tzmin') is not None:
+        if v.get('zone'):           # a named zone with daylight saving time: `fold` tells the two 02:30 of an autumn night apart
+            import zoneinfo
+            tz = zoneinfo.ZoneInfo(v['zone'])
+        elif v.get('tzmin') is not None:
             tz = _dt.timezone(_dt.timedelta(minutes=v['tzmin']))
-        return _dt.datetime(v['y'], v['mo'], v['d'], v['h'], v['mi'], v['s'], v.get('us', 0), tzinfo=tz)
+        return _dt.datetime(v['y'], v['mo'], v['d'], v['h'], v['mi'], v['s'], v.get('us', 0), tzinfo=tz, fold=v.get('fold', 0))
     if t == 'dtstr':
         return v['v']
     if t == 'ref':
@@ -318,9 +321,14 @@ def op_new_file(step, ctx):
     return [ev]
 
 
+def num_text(v):
+    """The decimal text of a number the user gave (True is the number 1); text stays text."""
+    return str(int(v)) if isinstance(v, bool) else str(v)
+
+
 def op_add_lf(step, ctx):
     ev = {'op': 'add_lf', 'fid': step['fid'], 'lf': step['lf'], 'fh_id': cps(step.get('fh_id', 'FILE-HEADER')),
-          'fh_seq_dec': cps(str(step.get('fh_seq', 1)))}
+          'fh_seq_dec': cps(num_text(step.get('fh_seq', 1)))}
     try:
         kw = {}
         if 'fh_id' in step:
@@ -967,7 +975,7 @@ def op_probe(step, ctx):
 
 def op_set_header(step, ctx):
     """lf.file_header.header_id = <str> / .sequence_number = <int> (public attributes of the header object), between two writes."""
-    ev = {'op': 'set_header', 'lf': step['lf'], 'field': step['field'], 'text': cps(str(step['v']))}
+    ev = {'op': 'set_header', 'lf': step['lf'], 'field': step['field'], 'text': cps(num_text(step['v']))}
     try:
         setattr(ctx['lfs'][step['lf']].file_header, step['field'], step['v'])
         ev['outcome'] = 'ok'
